@@ -461,7 +461,7 @@ CLAUSES = {
 }
 for _k, _f in CLAUSES.items():
     _f.function = {"ex": FN, "exu": FN, "isad": "is_antidistinguishable", "cqo": "common_quantum_overlap"}[_k.split(".")[0]]
-    _f.limit = 40
+    _f.limit = 25
 
 EX_GENERIC = ["ex.returns_normally", "ex.povm_valid", "ex.povm_attains", "ex.value_ge_opt", "ex.value_le_opt", "ex.nonneg", "ex.le_min_prior"]
 
@@ -547,7 +547,7 @@ def cases(tier, seed):
                             if slow and k > 0 and not thorough:
                                 continue
                             base = dict(n=n, d=d, field=field, form=form, solver=solver, prior=pick(priors, i), kind="mixed", rank=rank, seed=sd + i)
-                            for cl in clauses:
+                            for cl in (clauses if thorough or not slow else clauses[:1] + clauses[2:5]):
                                 add(cl, base, icl("min_error", form, field, "dm", solver))
             # ---- two states
             for field in fields:
@@ -597,7 +597,8 @@ def cases(tier, seed):
                         add("ex.relabel_invariance", base, icl("min_error", form, field, "any", solver))
                     i += 1
                     base = dict(n=n, d=d, field=field, solver=solver, rep=pick(reps, i), prior=pick(priors, i), kind=pick(["pure", "pure", "mixed"], i), seed=sd + i, phases=True)
-                    add("ex.primal_eq_dual", base, icl("min_error", "both", field, "any", solver))
+                    if thorough or n >= 4 or (n, d) == (2, 3):
+                        add("ex.primal_eq_dual", base, icl("min_error", "both", field, "any", solver))
                     base = dict(n=n, d=d, field=field, form=pick(forms, i), solver=solver, prior=pick(priors, i), kind="pure", seed=sd + i, phases=True)
                     add("ex.representation_invariance", base, icl("min_error", pick(forms, i), field, "vec", solver))
             # ---- unambiguous variant: primal/dual agreement where the solver returns
